@@ -144,6 +144,14 @@ func (t *locTarget) canary(n int, strict bool) error {
 	}
 	fr, cond := t.loc.ProcessEvent(drv.Ctx(), core.Map{"canary!k": "go"})
 	if strict {
+		// a search that meets whatever else was stored under the canary's key
+		srs, serr := t.loc.SearchFacts(ctx, core.Map{"canaryn": "?n"}, false)
+		if serr != nil {
+			return fmt.Errorf("canary search: %v", serr)
+		}
+		if !strings.Contains(strings.Join(drv.NormSearch(srs), ";"), "canary-fact") {
+			return fmt.Errorf("canary search did not find the canary fact: %v", drv.NormSearch(srs))
+		}
 		if cond != nil {
 			return fmt.Errorf("canary event: %s", cond.Msg)
 		}
@@ -248,6 +256,13 @@ func (t *sysTarget) canary(n int, strict bool) error {
 	}
 	fr, err := t.s.ProcessEvent(drv.Ctx(), "H", `{"canary!k":"go"}`)
 	if strict {
+		srs, serr := t.s.SearchFacts(ctx, "H", `{"canaryn":"?n"}`, false)
+		if serr != nil {
+			return fmt.Errorf("canary search: %v", serr)
+		}
+		if !strings.Contains(strings.Join(drv.NormSearch(srs), ";"), "canary-fact") {
+			return fmt.Errorf("canary search did not find the canary fact: %v", drv.NormSearch(srs))
+		}
 		if err != nil {
 			return fmt.Errorf("canary event: %v", err)
 		}
@@ -592,6 +607,8 @@ func hostileScripts(r *rep.Report, e rep.Env, via string) {
 		"Env.match()", "Env.match(1,2)", "Env.match({a:'?x'}, null)", "Env.ProcessEvent()", "Env.ProcessEvent(null)", "Env.ProcessEvent('str')",
 		"Env.AddRule()", "Env.AddRule('r', 5)", "Env.AddRule('r', {when: 5})", "Env.RemRule(null)", "Env.sleep('long')", "Env.sleep(-1)",
 		"throw {toString: function(){ throw 1 }}", "throw {valueOf: function(){ return {} }, toString: function(){ return {} }}", "throw null", "throw undefined",
+		// values JSON cannot render: as a result, and written into a fact the canary's search meets
+		"0/0", "1/0", "[1, -1/0]", "({n: 0/0})", "Env.AddFact('nf', {canaryn: 0/0})", "Env.AddFact('nf', {canaryn: [1/0]})", "Env.AddFact('canary-fact', {canaryn: -1/0})",
 		"Env.out()", "Env.bindings.x.y.z", "Env.secsFromNow()", "Env.secsFromNow('soon')", "Env.encode()", "Env.gensym(5)", "Env.exit()", "Env.log()",
 	}
 	for half := 0; half < 2; half++ {
